@@ -2,6 +2,8 @@
 """prints the prompt given to a fresh sub-agent asked for property-breaking changes (it sees only the property text)"""
 import json, sys
 pid = sys.argv[1]
+A, B = (sys.argv[2], sys.argv[3]) if len(sys.argv) > 3 else ("m1", "m2")
+AVOID = sys.argv[4] if len(sys.argv) > 4 else ""
 p = [json.loads(l) for l in open("/verif/properties.jsonl") if json.loads(l)["id"] == pid][0]
 print(f"""You are helping to evaluate a verification harness by producing realistic faulty versions of a Python library.
 
@@ -18,16 +20,16 @@ The property (a behavioural guarantee users of the library rely on):
   {p['statement']}
   Quantified over: {p['quantifier']['text']}
 
-Your task: produce TWO independent changes (m1 and m2, different mechanisms, different code sites if possible) to the library source under data_algebra/ such that, with the change applied:
+Your task: produce TWO independent changes ({A} and {B}, different mechanisms, different code sites if possible) to the library source under data_algebra/ such that, with the change applied:
   (a) the package still imports and the existing test suite check above still exits 0;
   (b) the property above is broken: there is a concrete pipeline / input / history / configuration for which the library now misbehaves in the sense of the property;
   (c) the change is realistic - the sort of slip a maintainer could make while refactoring, optimising, or fixing something else (an off-by-one, a dropped argument, a wrong default, a cache key that forgets a field, a condition inverted in a rarely taken branch, a copy that became a view ...), not an obviously malicious edit;
   (d) it needs something SPECIFIC to manifest - an unusual input (nulls, duplicates, empty table, particular names), a particular multi-step sequence of operations, a particular option combination, or two cooperating code sites that each look fine alone - and is NOT exposed immediately by ordinary simple use. Prefer changes whose trigger is narrow but plausible in real use.
 
-For each change k in (m1, m2) deliver in /tmp/wt-out/{pid}/mk/:
+For each change k in ({A}, {B}) deliver in /tmp/wt-out/{pid}/<k>/ (that is /tmp/wt-out/{pid}/{A}/ and /tmp/wt-out/{pid}/{B}/):
   - patch.diff : output of `git diff` in the worktree (must apply with `git apply` at the repository root of a clean checkout);
   - demo.py : a small standalone program that imports data_algebra (from PYTHONPATH) and exits 0 on the unmodified tree but exits non-zero (assert failure) with the change applied; it should state in a comment what it demonstrates;
   - meta.json : {{"property": "{pid}", "summary": "...", "needs_to_manifest": "...", "files": [...], "tests_run": "command and outcome"}}.
 Verify yourself, before finishing, for each change: demo.py exits 0 on the clean worktree, exits non-zero with the patch, and check_tests.py exits 0 with the patch applied. If a candidate change makes the test check fail, discard it and find another. Work on one change at a time: apply, verify, save the diff, then `git checkout -- .` to restore the worktree before the next. Leave the worktree clean at the end.
 
-Start by reading the code that implements the behaviour behind the property (grep in data_algebra/), then choose the change. Finish with a short report: for each change, one paragraph on what it does and what is needed to trigger it.""")
+{('Earlier rounds already produced changes at these sites; choose DIFFERENT functions and mechanisms: ' + AVOID + chr(10) + chr(10)) if AVOID else ''}Never use `git stash` (worktrees share the stash). Start by reading the code that implements the behaviour behind the property (grep in data_algebra/), then choose the change. Finish with a short report: for each change, one paragraph on what it does and what is needed to trigger it.""")
